@@ -6,18 +6,9 @@ from pathlib import Path
 ROOT = Path(__file__).resolve().parent.parent
 ALL = [f"C{i:02d}" for i in range(1, 21)]
 
-CHECKS = {
-    "C12": dict(
-        text="Coq theorems over Model/Dedup.v for every history, every stateful generator, every batch size and pass budget "
-             "(run_ok specification of the loop, flagged positions = repeats, repeat survives only after the whole budget, "
-             "unflagged points untouched, shape preserved); the model is tied to BaseSampler.sample by an exact "
-             "correspondence on scripted generators evaluated inside Coq, plus a direct oracle of the property.",
-        note="trusted: Coq kernel/vm_compute; numpy unique/argwhere/concatenate semantics are modelled; the harness. "
-             "Theorems closed under the global context (no axioms).",
-        technique="Coq proof (induction over the pass budget, declarative run_ok spec) + model/implementation correspondence by vm_compute",
-        design="4/C12",
-    ),
-}
+CHECKS = {}
+for _f in sorted((ROOT / "harness" / "manifest.d").glob("C*.json")):
+    CHECKS[_f.stem] = json.loads(_f.read_text())   # keys: text, note, technique, design
 
 NOT_YET = "check not built yet in this session; design in DESIGN.md section 4"
 
